@@ -17,7 +17,7 @@ META = {
         "(amount×price + fees + offset) ÷ amount up to renaming parameters↔fields (all leaf bijections are tried; they are "
         "compared with each other, not with a frozen formula), and every ledger function that prices shares calls the accessor. "
         "R3 (PROV): the cost offset handed to add_acquisition in the day loop is the pre-pass entry at the same transaction "
-        "index that identifies the lot; pooling adds to pool.total_cost the cost returned for the pooled quantity. R4: the "
+        "index that identifies the lot and reaches the lot unmodified (only unwrapped / copied / defaulted); pooling adds to pool.total_cost the cost returned for the pooled quantity. R4: the "
         "ledger's same-day consumption averages with ONE weight per lot — Σ(w × unit cost) ÷ Σ(w) with w the lot's availability — "
         "so the cost attributed is the cost of the shares actually debited. Does not decide the sum identity over a history."),
     "trusted_base": ["rust_decimal arithmetic is exact enough that equal terms denote equal values", "rustc MIR + resolution"],
